@@ -28,6 +28,39 @@ MODEL_INVARIANTS = ("TypeOK", "Refused", "RefusedEarly", "GoodLoads", "AllOrNoth
                     "ReadsInBounds", "Terminates", "NeverUndefined", "SizeAssumption")
 
 
+_SEEN = {}
+MAX_PER_KIND = 6
+
+
+def _viol(ctx, kind, what, save):
+    """Report at most MAX_PER_KIND violations of one kind (each with its own replay artifact); count the rest."""
+    n = _SEEN.get(kind, 0)
+    _SEEN[kind] = n + 1
+    if n < MAX_PER_KIND:
+        ctx.violation(what, save())
+    elif n == MAX_PER_KIND:
+        log("further violations of kind '%s' are counted in the evidence, not listed" % kind)
+
+
+def _probe(ctx, cmd, what, timeout=7200):
+    """Run nvmfault_probe.  The loader runs inside it: if the loader crashes on a damaged file the probe exits
+    with status 3 after printing a crash record (and saving the file) - that is a violation of the property
+    (loading must fail with an error), not an infrastructure failure."""
+    p = sh(cmd, env=ctx.env(), timeout=timeout, check=False)
+    if p.returncode == 0:
+        return p, False
+    recs = [x for x in ndjson(p.stdout) if x.get("k") == "crash"]
+    if p.returncode == 3 and recs:
+        x = recs[-1]
+        san = [l for l in p.stderr.splitlines() if "ERROR:" in l or "runtime error" in l]
+        _viol(ctx, "crash",
+              "the loader crashed (signal %s) instead of refusing a damaged file: %s, fault %s %s, %d bytes %s"
+              % (x["signal"], what, x["cls"], json.dumps(x["desc"])[:200], x["len"], (san or [""])[0][:200]),
+              lambda: ctx.save_replay("crash-%s-%s.nvm" % (x["cls"], sha(json.dumps(x["desc"]))), src=x["path"]))
+        return p, True
+    raise InfraError("nvmfault_probe failed (%s) on %s:\n%s\n%s" % (p.returncode, what, p.stdout[-600:], p.stderr[-1500:]))
+
+
 def _fault_key(f):
     return (f["cls"], f["a"], f["b"], f["c"])
 
@@ -64,13 +97,18 @@ def _check_model_image(ctx, probe, image, faults, work, trace):
     with open(fl, "w") as f:
         for rec in faults:
             f.write(json.dumps(rec["f"]) + "\n")
-    p = sh([probe, "model", img, fl] + ([trace] if trace else []), env=ctx.env(), timeout=600)
+    p, crashed = _probe(ctx, [probe, "model", img, fl] + ([trace] if trace else []), "model image", timeout=600)
     out = ndjson(p.stdout)
+    if crashed:
+        return len([x for x in out if x.get("k") == "fault"]), img, False
     head = out[0]
     if not head["loaded"]:
-        raise InfraError("the real loader refuses the model image of NvmLoad.tla (a well-formed file by the rules of the "
-                         "format): the loader does not accept undamaged files, C12 cannot be exercised "
-                         "(stored modules not loading is property C10's business)")
+        # The image is well-formed by the rules NvmLoad.tla transcribes (checksum = CRC-32 of every byte after the
+        # header).  A loader that refuses it does not break C12 by that alone; the model image is left out and the
+        # catalogue is still enumerated on the compiler-produced files (if those do not load either: InfraError).
+        log("WARNING: the real loader refuses the model image of NvmLoad.tla; the loader's notion of a well-formed "
+            "file differs from the specification's - continuing with compiler-produced files only")
+        return 0, img, False
     m, mm = head["mod"], image["mod"]
     real = dict(strings=m["strings"], code=m["code"], fns=m["fns"], nsec=m["nsec"], dbg=m["dbg"], imps=m["imps"])
     spec = dict(strings=mm["strings"], code=mm["code"], fns=[_fn_fields(x) for x in mm["fns"]], nsec=mm["nsec"],
@@ -85,29 +123,16 @@ def _check_model_image(ctx, probe, image, faults, work, trace):
         raise InfraError("probe answered %d of %d model faults" % (len(res), len(faults)))
     for rec, x in zip(faults, res):
         n += 1
-        if x["len"] != rec["len"] or x["last4"] != rec["last4"] or (rec["len"] > 32 and x["crc"] != rec["crc"]):
+        if x["len"] != rec["len"] or (x["last4"] != rec["last4"] and rec["len"] >= 4) or (rec["len"] > 32 and x["crc"] != rec["crc"]):
             raise InfraError("probe and model disagree on fault %s: damaged length/tail/checksum %s/%s/%s vs %s/%s/%s "
                              "(fault application or CRC-32 of the code differs from NvmLoad.tla)"
                              % (rec["f"], x["len"], x["last4"], x["crc"], rec["len"], rec["last4"], rec["crc"]))
         if x["loaded"]:
-            d = _apply_py(image["bytes"], x, rec)
-            rp = ctx.save_replay("model-%s-%s-%s.nvm" % (rec["f"]["cls"], rec["f"]["a"], rec["f"]["b"]), content=d)
-            ctx.violation("damaged model image accepted by nvm_deserialize: fault %s (the model refuses it at stage %s)"
-                          % (json.dumps(rec["f"]), rec["stage"]), rp)
-    return n, img
-
-
-def _apply_py(image, x, rec):
-    """Only to save a replay artifact for an accepted model fault: the probe reports len and the last
-    bytes; the full damaged file is rebuilt by asking nothing more than truncate/extend/xor on the image."""
-    f = rec["f"]
-    b = bytearray(image)
-    if f["cls"] == "Truncate":
-        return bytes(b[:f["a"]])
-    if f["cls"] in ("BadMagic", "BadVersion"):
-        b[f["a"]] = f["b"]
-    # other classes: the descriptor is in the violation text; the artifact is the undamaged image plus descriptor
-    return bytes(b)
+            _viol(ctx, "accepted:" + rec["f"]["cls"],
+                  "damaged model image accepted by nvm_deserialize: fault %s (the model refuses it at stage %s)"
+                  % (json.dumps(rec["f"]), rec["stage"]),
+                  lambda x=x, rec=rec: ctx.save_replay("model-%s-%s-%s.nvm" % (rec["f"]["cls"], rec["f"]["a"], rec["f"]["b"]), src=x["path"]))
+    return n, img, True
 
 
 def _compile_corpus(ctx, tree, work):
@@ -185,11 +210,12 @@ def run(ctx):
     maxburst, maxtail = cat["Burst"]["maxlen"], cat["Extend"]["maxlen"]
 
     trace = os.path.join(work, "c12.trace") if hooked else None
-    n_model_replayed, imgpath = _check_model_image(ctx, probe, image, faults, work, trace)
+    n_model_replayed, imgpath, image_ok = _check_model_image(ctx, probe, image, faults, work, trace)
+    targets = files + ([imgpath] if image_ok else [])
 
     # ---- good files run; the model image too ------------------------------------------------------------
     good_runs = {}
-    for path in files + [imgpath]:
+    for path in targets:
         rc, out, err = _run_vm(ctx, tree, path)
         if rc != 0 or not out:
             raise InfraError("undamaged file %s does not run under nano_vm (exit %s, %d bytes of output, %s): "
@@ -200,25 +226,21 @@ def run(ctx):
     accdir = os.path.join(work, "accepted")
     os.makedirs(accdir, exist_ok=True)
     tier = "quick" if quick else "thorough"
-    jobs = [(pb, v, f) for (pb, v) in ((probe, "plain"), (probe_asan, "asan")) for f in files + [imgpath]]
+    jobs = [(pb, v, f) for (pb, v) in ((probe, "plain"), (probe_asan, "asan")) for f in targets]
 
     def exhaust(job):
         pb, variant, f = job
-        # the asan pass of the thorough tier samples the bursts like the quick tier (the plain pass is exhaustive)
-        t = tier if variant == "plain" else "quick"
-        p = sh([pb, "exhaust", f, str(ctx.seed), t, str(maxburst), str(maxtail), accdir], env=ctx.env(),
-               timeout=7200, check=False)
-        return job, p
+        t = tier
+        return job, _probe(ctx, [pb, "exhaust", f, str(ctx.seed), t, str(maxburst), str(maxtail), accdir],
+                           "%s (%s build)" % (os.path.basename(f), variant))
     classes = {}
     evaluations = distinct = 0
     per_file = {}
-    for (pb, variant, f), p in parallel_map(exhaust, sorted(jobs, key=lambda j: -os.path.getsize(j[2]))):
-        if p.returncode != 0:
-            if variant == "asan" and ("AddressSanitizer" in p.stderr or "runtime error" in p.stderr):
-                rp = ctx.save_replay("asan-%s.txt" % os.path.basename(f), content=p.stderr[-20000:])
-                ctx.violation("sanitizer report while loading damaged variants of %s: %s" % (f, p.stderr[:300]), rp)
-                continue
-            raise InfraError("exhaust failed on %s (%s): %s" % (f, variant, p.stderr[-1500:]))
+    crashed_files = set()
+    for (pb, variant, f), (p, crashed) in parallel_map(exhaust, sorted(jobs, key=lambda j: -os.path.getsize(j[2]))):
+        if crashed:
+            crashed_files.add(f)
+            continue
         recs = ndjson(p.stdout)
         summ = [x for x in recs if x.get("k") == "summary"][0]
         if not summ["good_loads"]:
@@ -227,9 +249,10 @@ def run(ctx):
             raise InfraError("nvmfault_probe self-check failed on %s (%d)" % (f, summ["internal_errors"]))
         for x in recs:
             if x.get("k") == "accepted":
-                rp = ctx.save_replay(os.path.basename(x["path"]), src=x["path"])
-                ctx.violation("damaged file accepted by nvm_deserialize (%s build): %s of %s: %s"
-                              % (variant, x["cls"], os.path.basename(f), json.dumps(x["desc"])), rp)
+                _viol(ctx, "accepted:" + x["cls"],
+                      "damaged file accepted by nvm_deserialize (%s build): %s of %s: %s"
+                      % (variant, x["cls"], os.path.basename(f), json.dumps(x["desc"])),
+                      lambda x=x: ctx.save_replay(os.path.basename(x["path"]), src=x["path"]))
         for cname, c in summ["classes"].items():
             a = classes.setdefault(cname, dict(evaluations=0, distinct=0, accepted=0))
             a["evaluations"] += c["evaluations"]
@@ -246,17 +269,18 @@ def run(ctx):
     os.makedirs(smpdir, exist_ok=True)
     per = 2 if quick else 6
     cases = []
-    traced_files = [f for f in files + [imgpath] if os.path.getsize(f) <= (1600 if quick else 1 << 20)]
-    for f in files + [imgpath]:
+    traced_files = [f for f in targets if os.path.getsize(f) <= (1600 if quick else 1 << 20)]
+    for f in targets:
         tr = trace if (trace and f in traced_files) else "-"
-        p = sh([probe, "sample", f, str(ctx.seed), str(per), str(maxburst), str(maxtail), smpdir, tr], env=ctx.env(), timeout=600)
-        for x in ndjson(p.stdout):
+        p, crashed = _probe(ctx, [probe, "sample", f, str(ctx.seed), str(per), str(maxburst), str(maxtail), smpdir, tr],
+                            "sample of " + os.path.basename(f), timeout=600)
+        for x in [y for y in ndjson(p.stdout) if y.get("k") == "case"]:
             x["orig"] = f
             cases.append(x)
     for x in cases:
         if x["damaged"] and x["loaded"]:
-            rp = ctx.save_replay(os.path.basename(x["path"]), src=x["path"])
-            ctx.violation("damaged file accepted by nvm_deserialize: %s %s" % (x["id"], json.dumps(x.get("desc"))), rp)
+            _viol(ctx, "accepted:" + x["cls"], "damaged file accepted by nvm_deserialize: %s %s" % (x["id"], json.dumps(x.get("desc"))),
+                  lambda x=x: ctx.save_replay(os.path.basename(x["path"]), src=x["path"]))
 
     def vm(x):
         return x, _run_vm(ctx, tree, x["path"])
@@ -267,10 +291,11 @@ def run(ctx):
         size = os.path.getsize(x["path"])
         refused_msg = "invalid .nvm format" in err or (size == 0 and "Invalid file size" in err)
         if rc != 1 or out or not refused_msg:
-            rp = ctx.save_replay(os.path.basename(x["path"]), src=x["path"])
-            ctx.violation("nano_vm on a damaged file (%s, %s): exit status %s, %d bytes of program output, stderr %r "
-                          "(expected: exit 1, 'invalid .nvm format', no output)"
-                          % (x["id"], json.dumps(x.get("desc")), rc, len(out), err[:160]), rp)
+            _viol(ctx, "nano_vm:" + x["cls"],
+                  "nano_vm on a damaged file (%s, %s): exit status %s, %d bytes of program output, stderr %r "
+                  "(expected: exit 1, 'invalid .nvm format', no output)"
+                  % (x["id"], json.dumps(x.get("desc")), rc, len(out), err[:160]),
+                  lambda x=x: ctx.save_replay(os.path.basename(x["path"]), src=x["path"]))
         if len(vm_samples) < 6 and x["id"].endswith(":0"):
             vm_samples.append(dict(id=x["id"], fault=x.get("desc"), exit=rc, stdout_bytes=len(out), stderr=err.strip()[:80]))
 
@@ -293,11 +318,12 @@ def run(ctx):
                         f.writelines(loads.get(x["id"], []))
                 end2, rej2, _, _ = run_trace(ctx, "NvmLoadTrace", sub, consts)
                 for x in rej2:
-                    rp = ctx.save_replay("trace-%s.ndjson" % x["id"].replace("/", "_").replace(":", "_"),
-                                         content="".join(loads.get(x["id"], [])))
-                    ctx.violation("loader stage events of load %s are not a behaviour of NvmLoad: at line %s the code logged %s "
-                                  "while the specification (stage %s, events %s) could only do %s"
-                                  % (x["id"], x["l"], x["logged"][:200], x["spec_stage"], x["spec_events"], x["spec_could"]), rp)
+                    _viol(ctx, "trace",
+                          "loader stage events of load %s are not a behaviour of NvmLoad: at line %s the code logged %s "
+                          "while the specification (stage %s, events %s) could only do %s"
+                          % (x["id"], x["l"], x["logged"][:200], x["spec_stage"], x["spec_events"], x["spec_could"]),
+                          lambda x=x: ctx.save_replay("trace-%s.ndjson" % x["id"].replace("/", "_").replace(":", "_"),
+                                                      content="".join(loads.get(x["id"], []))))
             traces_ok = end["accepted"]
             trace_info.update(loads=len(order), accepted=end["accepted"], rejected=end["rejected"], events=end["lines"],
                               tlc_states=tr.distinct)
@@ -307,8 +333,10 @@ def run(ctx):
 
     sample_faults = [dict(model_fault=rec["f"], predicted_stage=rec["stage"], predicted_crc=rec["crc"]) for rec in faults[:3]]
     cov = dict(
-        evaluations=evaluations + n_model_replayed + vm_runs,
-        distinct_nontrivial=distinct,
+        evaluations=evaluations + n_model_replayed + vm_runs + len(cases),
+        # damaged files of the in-process enumeration; if it was cut short by a crash of the loader, at least the
+        # sampled damaged files and the model faults that were loaded before are counted
+        distinct_nontrivial=max(distinct, len([c for c in cases if c["damaged"]]) + n_model_replayed),
         rule="one evaluation = one damaged file handed to the real nvm_deserialize (plain and asan builds) or to nano_vm; "
              "distinct = distinct damaged files per original on the plain build (each flips at least one bit, drops or "
              "adds at least one byte, so none equals the original); classes and parameters are the catalogue printed by "
@@ -319,9 +347,9 @@ def run(ctx):
                         % ("3 seeded length/pattern choices per offset" if quick else "every length 2..%d x 4 model patterns + 1 seeded" % maxburst, maxtail),
         states=r.distinct, transitions=r.generated, traces_validated_against_impl=traces_ok,
         model=dict(image_bytes=len(image["bytes"]), body_bits=image["bodybits"], invariants=list(MODEL_INVARIANTS),
-                   violated=r.violated, faults_replayed_on_real_loader=n_model_replayed, catalogue=cat),
+                   violated=r.violated, faults_replayed_on_real_loader=n_model_replayed, image_loads_on_real_loader=image_ok, catalogue=cat),
         classes=classes, files=per_file, corpus_files=len(files), nano_vm_runs=vm_runs, trace=trace_info,
-        constants=raw,
+        constants=raw, violations_by_kind=dict(_SEEN),
         samples=sample_faults + vm_samples[:4],
     )
     return "fault_enumeration", cov, assumptions
